@@ -20,7 +20,7 @@
        list of arms that do not occur in D and a later warm_start treats them as cold again.
     The laws are also executed on the implementation by the warm-start relation with an independently recomputed threshold. *)
 From Coq Require Import List ZArith Bool Arith QArith Qcanon Permutation.
-From MW Require Import Num Assoc AssocFacts Rng Par CF CFInv CFClean CFForget CFSpec Matrix Lin Warm WarmInv Nbr NbrFacts NbrIndep LshFacts Clu Tree CellFacts Mab FacadeCF FacadeArms MoreFacts NumLaws CFAlg Sim Extra QcInst OrderFacts ExpIrrel LinInv FacadeLin LpInv NbrInv CluTreeInv FacadeAll ToyFacts C09All C10All LinForget LinSim MatrixFacts GaussJordan LinSpec NbrIndepGen CluIndep C17Lin WarmIdem C14More LshScale TreeLeaf Rename PopSpec CopyFacts StatFacts CluBatch LinWarm QuantileMono FitStatus.
+From MW Require Import Num Assoc AssocFacts Rng Par CF CFInv CFClean CFForget CFSpec Matrix Lin Warm WarmInv Nbr NbrFacts NbrIndep LshFacts Clu Tree CellFacts Mab FacadeCF FacadeArms MoreFacts NumLaws CFAlg Sim Extra QcInst OrderFacts ExpIrrel LinInv FacadeLin LpInv NbrInv CluTreeInv FacadeAll ToyFacts C09All C10All LinForget LinSim MatrixFacts GaussJordan LinSpec NbrIndepGen CluIndep C17Lin WarmIdem C14More LshScale TreeLeaf Rename PopSpec CopyFacts StatFacts CluBatch LinWarm QuantileMono FitStatus WarmDonor.
 Import ListNotations.
 
 Theorem C13_status_after_fit_trained_iff_observed_and_never_warm :
@@ -57,6 +57,59 @@ Theorem C13_linear_status_after_fit :
   Some {| st_trained := amem aeqb a ds; st_warm := false; st_by := None |}.
 Proof. exact @lin_fit_status. Qed.
 Print Assumptions C13_linear_status_after_fit.
+
+Theorem C13_warm_started_arm_holds_an_exact_copy_of_the_donor_state :
+  forall (R A : Type) (N : Num R) (aeqb : A -> A -> bool),
+  (forall x y : A, aeqb x y = true <-> x = y) ->
+  forall (s s' : (@cf R A)) (keys : list A) (raw : A -> A -> R) (q thr : R) (c w : A),
+  NoDup (c_arms s) ->
+  cf_warm_start N aeqb s keys raw q = Some s' ->
+  c_kind s <> KRandom ->
+  distance_threshold N (distance_table N aeqb keys raw) q = Some thr ->
+  In (c, w) (cold_to_warm N aeqb s (distance_table N aeqb keys raw) thr) ->
+  (exists st : (@armst R),
+     aget aeqb (c_stats s') c = Some st /\
+     learned_eq (c_kind s) st (aget_d aeqb (armst0 N) (c_stats s) w)) /\
+  (copies_exp (c_kind s) = true -> aget aeqb (c_exp s') c = Some (aget_d aeqb (zero N) (c_exp s) w)) /\
+  aget aeqb (c_status s') c =
+  Some
+    {|
+      st_trained := st_trained (aget_d aeqb status0 (c_status s) c); st_warm := true; st_by := Some w
+    |} /\
+  (forall sw : (@armst R),
+   aget aeqb (c_stats s) w = Some sw ->
+   exists sw' : (@armst R), aget aeqb (c_stats s') w = Some sw' /\ kept sw' sw) /\
+  aget aeqb (c_status s') w = aget aeqb (c_status s) w.
+Proof. exact @warm_started_arm_holds_the_donor_state. Qed.
+Print Assumptions C13_warm_started_arm_holds_an_exact_copy_of_the_donor_state.
+
+Theorem C13_linear_warm_started_arm_holds_the_donor_regression :
+  forall (R A G : Type) (N : Num R) (aeqb : A -> A -> bool),
+  (forall x y : A, aeqb x y = true <-> x = y) ->
+  forall (s s' : (@lin R A G)) (g : G) (keys : list A) (raw : A -> A -> R) (q thr : R) (c w : A),
+  NoDup (l_arms s) ->
+  lin_warm_start N aeqb s g keys raw q = Some s' ->
+  distance_threshold N (distance_table N aeqb keys raw) q = Some thr ->
+  In (c, w)
+    (cold_to_warm_gen N aeqb (lin_trained_arms aeqb s) (lin_cold_arms aeqb s)
+       (distance_table N aeqb keys raw) thr) ->
+  aget aeqb (l_models s') c = Some (donor_copy g (aget_d aeqb ridge_new (l_models s) w)) /\
+  aget aeqb (l_status s') c =
+  Some
+    {|
+      st_trained := st_trained (aget_d aeqb status0 (l_status s) c); st_warm := true; st_by := Some w
+    |} /\
+  aget aeqb (l_models s') w = aget aeqb (l_models s) w /\
+  aget aeqb (l_status s') w = aget aeqb (l_status s) w.
+Proof. exact @lin_warm_started_arm_holds_the_donor_regression. Qed.
+Print Assumptions C13_linear_warm_started_arm_holds_the_donor_regression.
+
+Theorem C13_no_cold_arm_is_paired_twice :
+  forall (R A : Type) (N : Num R) (aeqb : A -> A -> bool) (trained cold : list A)
+    (dt : list (A * list (A * R))) (thr : R),
+  NoDup cold -> NoDup (map fst (cold_to_warm_gen N aeqb trained cold dt thr)).
+Proof. exact @cold_to_warm_gen_nodup. Qed.
+Print Assumptions C13_no_cold_arm_is_paired_twice.
 
 Theorem C13_pairs_are_cold_arm_trained_donor_within_threshold :
   forall (R A : Type) (N : Num R) (aeqb : A -> A -> bool) (trained cold : list A)
@@ -199,4 +252,27 @@ Print Assumptions C13_linear_pairs_are_cold_arm_trained_donor_within_threshold.
 (* non-vacuity: the floor of the rational instance meets the specification assumed by the monotonicity theorems *)
 Example C13_floor_hypothesis_is_met : floor_ok QcNum.
 Proof. exact Qc_floor_ok. Qed.
+
+(* non-vacuity of the donor theorems: a UCB1 bandit and a LinUCB bandit over arms 1..4, trained on arms 1 and 2 only, arm features on a line
+   (distance |u - v|), quantile 1: arm 3 is paired with donor 2 - the hypotheses of both theorems hold with a non-empty pair list *)
+Definition wq (z : Z) : Qc := Q2Qc (inject_Z z).
+Definition w_raw (u v : Z) : Qc := wq (Z.abs (u - v)).
+Definition w_cf : @cf Qc Z := cf_fit QcNum Z.eqb (cf_init QcNum KUcb (wq 1) None [1; 2; 3; 4]%Z) [1; 2; 1]%Z [wq 1; wq 0; wq 1].
+Definition w_lin : @lin Qc Z nat :=
+  fst (lin_fit QcNum Z.eqb (lin_init QcNum RUcb (wq 1) (wq 0) (wq 1) false false [1; 2; 3; 4]%Z) 0%nat [1; 2; 1]%Z [wq 1; wq 0; wq 1]
+                       [[wq 1; wq 0]; [wq 0; wq 1]; [wq 1; wq 1]]).
+Example C13_donor_theorem_hypotheses_satisfiable :
+  let dt := distance_table QcNum Z.eqb [1; 2; 3; 4]%Z w_raw in
+  NoDup (c_arms w_cf) /\ c_kind w_cf <> KRandom /\ NoDup (l_arms w_lin) /\
+  distance_threshold QcNum dt (wq 1) = Some (wq 1) /\
+  (exists s', cf_warm_start QcNum Z.eqb w_cf [1; 2; 3; 4]%Z w_raw (wq 1) = Some s') /\
+  In (3, 2)%Z (cold_to_warm QcNum Z.eqb w_cf dt (wq 1)) /\
+  (exists s', lin_warm_start QcNum Z.eqb w_lin 0%nat [1; 2; 3; 4]%Z w_raw (wq 1) = Some s') /\
+  In (3, 2)%Z (cold_to_warm_gen QcNum Z.eqb (lin_trained_arms Z.eqb w_lin) (lin_cold_arms Z.eqb w_lin) dt (wq 1)).
+Proof.
+  cbv zeta. split; [vm_compute; repeat constructor; simpl; intuition discriminate|].
+  split; [vm_compute; discriminate|]. split; [vm_compute; repeat constructor; simpl; intuition discriminate|].
+  split; [vm_compute; reflexivity|]. split; [eexists; vm_compute; reflexivity|].
+  split; [vm_compute; left; reflexivity|]. split; [eexists; vm_compute; reflexivity|]. vm_compute. left. reflexivity.
+Qed.
 
